@@ -15,6 +15,7 @@ import ZarrsModel.Driver.C17
 import ZarrsModel.Driver.C18
 import ZarrsModel.Driver.C19
 import ZarrsModel.Driver.C20
+import ZarrsModel.Driver.C02Shard
 /-
 Line-protocol driver: reads `request -> implementation outcome` lines, replays each request through the
 model's executable definitions and prints one verdict line per disagreement:
@@ -38,6 +39,7 @@ structure DState where
 def dispatch (st : DState) (l : Line) : Option (DState × List String × Option String) :=
   match l.verbs.head? with
   | some "c03" => (DriverC03.handle l).map (fun a => (st, a, none))
+  | some "c02s" => (DriverC02S.handle l).map (fun (a, n) => (st, a, n))
   | some "c02" => (DriverC01.handle st.c01 l).map (fun (s, a, n) => ({ st with c01 := s }, a, n))
   | some "c04" => (DriverC01.handle st.c01 l).map (fun (s, a, n) => ({ st with c01 := s }, a, n))
   | some "c05" => (DriverC05.handle st.c05 l).map (fun (s, a, n) => ({ st with c05 := s }, a, n))
